@@ -83,19 +83,20 @@ def mval(v):
     return "O" if v is O else [v[0], v[1]]
 
 
-def make_point(env, val, z=1, order=None, gen=False, legacy=False):
+def make_point(env, val, z=1, order=None, gen=False, legacy=False, cf=None):
     """A library object denoting model value `val`."""
     le = env.le
     if val is O:
         return le.INFINITY
     x, y = val
     p = env.mc.p
+    cf = cf if cf is not None else env.cf
     if legacy:
-        return le.Point(env.cf, x, y, order)
+        return le.Point(cf, x, y, order)
     z %= p
     if z == 0:
         z = 1
-    return le.PointJacobi(env.cf, x * z * z % p, y * z * z * z % p, z,
+    return le.PointJacobi(cf, x * z * z % p, y * z * z * z % p, z,
                           order, gen)
 
 
@@ -108,7 +109,8 @@ def decl_order(env, tag):
 
 
 class Entry(object):
-    __slots__ = ("obj", "val", "order", "gen", "legacy", "tag")
+    __slots__ = ("obj", "val", "order", "gen", "legacy", "tag", "curve0",
+                 "cof0")
 
     def __init__(self, obj, val, order=None, gen=False, legacy=False):
         self.obj = obj
@@ -116,11 +118,20 @@ class Entry(object):
         self.order = order
         self.gen = gen
         self.legacy = legacy
+        # the curve object a point reports is part of what it is
+        try:
+            self.curve0 = obj.curve() if val is not O else None
+            self.cof0 = self.curve0.cofactor() if self.curve0 is not None \
+                else None
+        except Exception:
+            self.curve0 = None
+            self.cof0 = None
 
     def fresh(self, env):
         if self.val is O:
             return env.le.INFINITY
-        return make_point(env, self.val, 1, self.order, self.gen, self.legacy)
+        return make_point(env, self.val, 1, self.order, self.gen, self.legacy,
+                          cf=self.curve0)
 
 
 def rep_class(env, e):
@@ -253,6 +264,7 @@ def _gen_op(r, name, mc, toy):
         op["gen"] = r.random() < 0.25 and op["order"] != "none"
         op["legacy"] = r.random() < 0.12
         op["rel"] = r.choice(["free", "free", "same", "neg", "dbl"])
+        op["sib"] = r.random() < 0.1
         op["i"] = idx()
     elif name in ("x", "y", "xy", "scale", "to_affine", "double", "neg",
                   "order", "pickle"):
@@ -354,6 +366,9 @@ def execute(prog, known_cb=None):
     env.toy = mc.p < (1 << 24)
     env.curve = libx.fresh_lib_curve(mc)
     env.cf = env.curve.curve
+    # an equal (same p, a, b) but distinct curve object with another cofactor
+    env.cf_sib = le.CurveFp(int(env.cf.p()), int(env.cf.a()), int(env.cf.b()),
+                            mc.h + 1)
     env.even = (mc.n * mc.h) % 2 == 0
     registered = False
     if env.toy:
@@ -514,6 +529,8 @@ class _State(object):
         for e in self.pool:
             try:
                 e.obj = pickle.loads(pickle.dumps(e.obj))
+                if e.curve0 is not None:
+                    e.curve0 = e.obj.curve()    # a copy, by construction
             except Exception as ex:
                 self.fail("pickle", "restart-" + type(ex).__name__,
                           "pickling a pool point failed: %r" % (ex,))
@@ -625,8 +642,11 @@ class _State(object):
         if legacy and mc.h != 1 and order:
             order = None
         gen = bool(op["gen"]) and not legacy and bool(order)
+        if op.get("sib") and legacy:
+            order = None    # the legacy constructor would multiply by it
         try:
-            obj = make_point(env, val, op["z"], order, gen, legacy)
+            obj = make_point(env, val, op["z"], order, gen, legacy,
+                             cf=env.cf_sib if op.get("sib") else None)
         except Exception as e:
             self.fail("exception", "construct-" + type(e).__name__,
                       "constructing a valid point raised %r" % (e,))
@@ -933,6 +953,8 @@ class _State(object):
                       "to the original", even_scope=y0)
         if op.get("replace"):
             e.obj = res
+            if e.curve0 is not None:
+                e.curve0 = res.curve()
         else:
             self.put(res, e.val, e.order, e.gen, e.legacy)
 
@@ -953,6 +975,19 @@ class _State(object):
                 self.fail("invar", "read-" + type(ex).__name__,
                           "pool object %d cannot be read: %r" % (idx, ex),
                           even_scope=y0)
+            if e.curve0 is not None:
+                try:
+                    cnow = e.obj.curve()
+                    cofnow = cnow.cofactor()
+                except Exception as ex:
+                    self.fail("invar", "curve-" + type(ex).__name__,
+                              "pool object %d: curve() raised %r" % (idx, ex),
+                              even_scope=y0)
+                if cnow is not e.curve0 or cofnow != e.cof0:
+                    self.fail("invar", "curve-object",
+                              "pool object %d now reports another curve "
+                              "object (cofactor %r, was %r)" % (
+                                  idx, cofnow, e.cof0), even_scope=y0)
             if got != mval(e.val):
                 self.fail("invar", "value",
                           "pool object %d now denotes %r, its value is %r"
